@@ -1,5 +1,8 @@
 import BiotiteModel.Model.C08
 import BiotiteModel.Proofs.C08
+import BiotiteModel.Proofs.C08AffOpt
+import BiotiteModel.Proofs.C08Semi
+import BiotiteModel.Proofs.C08Prefix
 import BiotiteModel.Gen.C08
 /-!
 # C08 — property theorems (optimal pairwise alignment returns the true optimum)
@@ -180,6 +183,20 @@ theorem C08_reported_aff (mode : Mode) (M : Mat) (go ge : Int) (a b : Seq) :
   | semi => simp [optAffT, optAff, Rec.row_getLast]
   | «local» => simp [optAffT, optAff, fillAff, Rec.table_flatten]
 
+/-- prefix form (global): cell `(i, j)` of the table `_fill_align_table` builds for `a`, `b` is the optimum of
+the prefixes `a[:i]`, `b[:j]`.  (Semi-global cells in the last row/column and local cells are not prefix optima:
+they are covered by `C08_table_lin`.) -/
+theorem C08_table_lin_prefix (M : Mat) (g : Int) (a b : Seq) (i j : Nat) (hi : i ≤ a.length) (hj : j ≤ b.length) :
+    ((fillLin .global M g a b)[i]?.bind (·[j]?)) = some (optLin M g (a.take i) (b.take j)) := by
+  rw [C08_table_lin .global M g a b i j hi hj, table_lin_prefix M g a b i j hi hj]
+
+/-- prefix form, affine global: the best of the three table cells `(i, j)` is the affine optimum of the prefixes. -/
+theorem C08_table_aff_prefix (M : Mat) (go ge : Int) (a b : Seq) (i j : Nat) (hi : i ≤ a.length)
+    (hj : j ≤ b.length) :
+    ((fillAff .global M go ge a b)[i]?.bind (·[j]?)).map (fun c => c.best.getD 0)
+      = some (optAff .global M go ge (a.take i) (b.take j)) := by
+  rw [C08_table_aff .global M go ge a b i j hi hj, Option.map_some, table_aff_prefix M go ge a b i j hi hj]
+
 /-! ## The checker run on every actual output -/
 
 theorem validB_sound (mode : Mode) (a b : Seq) (aln : Aln) (h : validB mode a b aln = true) :
@@ -220,10 +237,114 @@ theorem C08_checker_score_lin (a b : Seq) (M : Mat) (g : Int) (mode : Mode) (hm 
   | semi => exact absurd rfl hm
   | «local» => exact scorePub_lin M g a b aln
 
-/-- Affine penalties (partial): an accepted trace is valid, has no abutting gaps, its public score is the
-reported one and that is at most the value of the three-state recurrence `optAff`.  That `optAff` is the
-maximum over all non-abutting alignments is NOT proved (tied by correspondence + enumeration oracle). -/
-theorem C08_checker_sound_aff_partial (a b : Seq) (M : Mat) (go ge : Int) (mode : Mode)
+/-! ## Affine gap penalties: the three-state recurrence is the optimum over non-abutting alignments -/
+
+
+/-- affine, global: every end-to-end alignment without abutting gaps scores (public `align.score`) at most `optAff`. -/
+theorem C08_upper_aff (M : Mat) (go ge : Int) (a b : Seq) (aln : Aln) (h : ValidGlobal a b aln) (hn : NoAbut aln) :
+    score .global (.aff go ge) M a b aln ≤ optAff .global M go ge a b := by
+  rw [score_aff_eq_pos .global (by decide) M go ge a b aln (0, 0)]
+  have hn' : noAbutK .m aln = true := by rw [← noAbutB_eq]; exact hn
+  obtain ⟨w, hw, hle⟩ := upper_genK (InvS (affRec .global M go ge a b)) _ (step_aff_global M go ge a b)
+    aln (0, 0) _ .m 0 h hn' ⟨0, by simp [aff_border00, stateVal], Int.le_refl _⟩
+  obtain ⟨v, hv, hwv⟩ := stateVal_le_best _ _ _ hw
+  simp only [optAff, hv, Option.getD_some]
+  omega
+
+/-- affine, semi-global (positional form of `terminal_penalty=False`). -/
+theorem C08_upper_aff_semi (M : Mat) (go ge : Int) (a b : Seq) (aln : Aln) (h : ValidGlobal a b aln)
+    (hn : NoAbut aln) :
+    scoreAffSemiPos M go ge a b (0, 0) .m aln ≤ optAff .semi M go ge a b := by
+  have hn' : noAbutK .m aln = true := by rw [← noAbutB_eq]; exact hn
+  obtain ⟨w, hw, hle⟩ := upper_genK (InvS (affRec .semi M go ge a b)) _ (step_aff_semi M go ge a b)
+    aln (0, 0) _ .m 0 h hn' ⟨0, by simp [aff_border00, stateVal], Int.le_refl _⟩
+  obtain ⟨v, hv, hwv⟩ := stateVal_le_best _ _ _ hw
+  simp only [optAff, hv, Option.getD_some, scoreAffSemiPos]
+  omega
+
+/-- affine, local: every contiguous non-abutting alignment of two substrings scores at most `optAff .local`. -/
+theorem C08_upper_aff_local (M : Mat) (go ge : Int) (hgo : go ≤ 0) (hge : ge ≤ 0) (a b : Seq) (aln : Aln)
+    (h : ValidLocal a b aln) (hn : NoAbut aln) :
+    score .local (.aff go ge) M a b aln ≤ optAff .local M go ge a b := by
+  obtain ⟨i0, j0, i1, j1, hw, hi, hj⟩ := h
+  rw [score_aff_eq_pos .local (by decide) M go ge a b aln (i0, j0)]
+  have hn' : noAbutK .m aln = true := by rw [← noAbutB_eq]; exact hn
+  have h0 : InvL (affRec .local M go ge a b) (i0, j0) .m 0 := by
+    unfold InvL invO
+    split
+    · rename_i w hv; exact aff_local_nonneg M go ge a b i0 j0 .m w hv
+    · exact Int.le_refl _
+  have := upper_genK (InvL (affRec .local M go ge a b)) _ (step_aff_local M go ge hgo hge a b)
+    aln (i0, j0) _ .m 0 hw hn' h0
+  unfold InvL invO at this
+  split at this
+  · rename_i w hv
+    have := aff_local_state_le_opt M go ge hgo hge a b i1 j1 hi hj _ w hv
+    omega
+  · have := optAff_local_nonneg M go ge a b
+    omega
+
+theorem C08_attained_aff (M : Mat) (go ge : Int) (a b : Seq) :
+    ∃ aln, ValidGlobal a b aln ∧ NoAbut aln ∧ score .global (.aff go ge) M a b aln = optAff .global M go ge a b := by
+  obtain ⟨k, v, hk, hv⟩ := aff_has_real_global M go ge a b a.length b.length
+  obtain ⟨bv, hb, _⟩ := stateVal_le_best _ _ _ hv
+  obtain ⟨kb, hkb, hvb⟩ := best_cases _ _ hb
+  have hR : RS (affRec .global M go ge a b) a.length b.length kb bv :=
+    ⟨by rcases hkb with h | h | h <;> simp [h], hvb⟩
+  obtain ⟨p0, aln, hP, hw, hna, _, hs⟩ := attained_genK (RS (affRec .global M go ge a b))
+    (costAffK .global M go ge a b) (fun p => p = (0, 0)) (hcell_aff_global M go ge a b) _ _ _ kb bv rfl hR
+  subst hP
+  refine ⟨aln, hw, by unfold NoAbut; rw [noAbutB_eq]; exact hna, ?_⟩
+  rw [score_aff_eq_pos .global (by decide) M go ge a b aln (0, 0), hs]
+  simp [optAff, hb]
+
+theorem C08_attained_aff_semi (M : Mat) (go ge : Int) (a b : Seq) :
+    ∃ aln, ValidGlobal a b aln ∧ NoAbut aln ∧
+      scoreAffSemiPos M go ge a b (0, 0) .m aln = optAff .semi M go ge a b := by
+  obtain ⟨k, v, hk, hv⟩ := aff_has_real_semi M go ge a b a.length b.length
+  obtain ⟨bv, hb, _⟩ := stateVal_le_best _ _ _ hv
+  obtain ⟨kb, hkb, hvb⟩ := best_cases _ _ hb
+  have hR : RS (affRec .semi M go ge a b) a.length b.length kb bv :=
+    ⟨by rcases hkb with h | h | h <;> simp [h], hvb⟩
+  obtain ⟨p0, aln, hP, hw, hna, _, hs⟩ := attained_genK (RS (affRec .semi M go ge a b))
+    (costAffK .semi M go ge a b) (fun p => p = (0, 0)) (hcell_aff_semi M go ge a b) _ _ _ kb bv rfl hR
+  subst hP
+  refine ⟨aln, hw, by unfold NoAbut; rw [noAbutB_eq]; exact hna, ?_⟩
+  simp [scoreAffSemiPos, hs, optAff, hb]
+
+theorem C08_attained_aff_local (M : Mat) (go ge : Int) (a b : Seq) :
+    ∃ aln, ValidLocal a b aln ∧ NoAbut aln ∧ score .local (.aff go ge) M a b aln = optAff .local M go ge a b := by
+  have hempty : optAff .local M go ge a b = 0 →
+      ∃ aln, ValidLocal a b aln ∧ NoAbut aln ∧ score .local (.aff go ge) M a b aln = optAff .local M go ge a b := by
+    intro h0
+    exact ⟨[], ⟨0, 0, 0, 0, rfl, Nat.zero_le _, Nat.zero_le _⟩, rfl, by rw [h0]; rfl⟩
+  rcases listMax_mem 0 (((List.range (a.length + 1)).flatMap fun i =>
+      (List.range (b.length + 1)).map ((affRec .local M go ge a b).val i)).filterMap (·.m)) with h0 | hm
+  · exact hempty h0
+  · rw [List.mem_filterMap] at hm
+    obtain ⟨c, hc, hcm⟩ := hm
+    rw [List.mem_flatMap] at hc
+    obtain ⟨i, hi, hc⟩ := hc
+    rw [List.mem_map] at hc
+    obtain ⟨j, hj, hcv⟩ := hc
+    subst hcv
+    have hi' := List.mem_range.mp hi
+    have hj' := List.mem_range.mp hj
+    by_cases hb : 0 < i ∧ 0 < j
+    · have hR : RL (affRec .local M go ge a b) i j .m (optAff .local M go ge a b) :=
+        Or.inr ⟨hb.1, hb.2, by simp, hcm⟩
+      obtain ⟨p0, aln, _, hw, hna, _, hs⟩ := attained_genK (RL (affRec .local M go ge a b))
+        (costAffK .local M go ge a b) (fun _ => True) (hcell_aff_local M go ge a b) _ _ _ .m _ rfl hR
+      refine ⟨aln, ⟨p0.1, p0.2, i, j, hw, by omega, by omega⟩, by unfold NoAbut; rw [noAbutB_eq]; exact hna, ?_⟩
+      rw [score_aff_eq_pos .local (by decide) M go ge a b aln p0, hs]
+    · have := aff_local_border_zero M go ge a b i j (by omega) .m _ hcm
+      exact hempty this
+
+
+/-- Affine penalties: a trace the checker accepts is a valid alignment without abutting gaps whose public score
+(`align.score`) is the reported one, and the reported score is at most `optAff`, the optimum over all valid
+non-abutting alignments (`C08_upper_aff*`, `C08_attained_aff*`). -/
+theorem C08_checker_sound_aff (a b : Seq) (M : Mat) (go ge : Int) (mode : Mode)
     (trace : List (Int × Int)) (sc : Int)
     (h : checkAlignment a b M (.aff go ge) mode trace sc = true) :
     ∃ aln, traceToAln trace = some aln ∧ Valid mode a b aln ∧ NoAbut aln ∧
@@ -238,6 +359,61 @@ theorem C08_checker_sound_aff_partial (a b : Seq) (M : Mat) (go ge : Int) (mode 
     · cases mode <;> simpa [NoAbut] using hp
     · rw [← C08_reported_aff]; exact hu
   · simp at h
+
+/-! ## The public score: `align.score(…, terminal_penalty=False)` is the positional form, and the optimality
+theorems restated for the public `score mode gap` in every mode -/
+
+/-- linear, semi-global: the statement-by-statement model of `align.score(aln, M, g, terminal_penalty=False)`
+(slice between the `find_terminal_gaps` indices) equals the positional form on every end-to-end alignment. -/
+theorem C08_scorePub_semi (M : Mat) (g : Int) (a b : Seq) (aln : Aln) (h : ValidGlobal a b aln) :
+    score .semi (.lin g) M a b aln = scoreSemiPos M g a b (0, 0) aln :=
+  scorePub_semi M g a b aln h
+
+/-- affine, semi-global: same for `(gap_open, gap_ext)`. -/
+theorem C08_scorePub_semi_aff (M : Mat) (go ge : Int) (a b : Seq) (aln : Aln) (h : ValidGlobal a b aln) :
+    score .semi (.aff go ge) M a b aln = scoreAffSemiPos M go ge a b (0, 0) .m aln :=
+  scorePub_semi_aff M go ge a b aln h
+
+/-- Linear penalties, all modes, public score: no valid alignment scores above the optimum. -/
+theorem C08_upper_pub_lin (mode : Mode) (M : Mat) (g : Int) (hg : g ≤ 0) (a b : Seq) (aln : Aln)
+    (h : Valid mode a b aln) : score mode (.lin g) M a b aln ≤ opt mode M g a b := by
+  cases mode with
+  | global => rw [C08_checker_score_lin _ _ _ _ _ (by decide)]; exact C08_upper_lin M g a b aln h
+  | semi => rw [C08_scorePub_semi M g a b aln h]; exact C08_upper_semi M g a b aln h
+  | «local» => rw [C08_checker_score_lin _ _ _ _ _ (by decide)]; exact C08_upper_local M g hg a b aln h
+
+/-- Linear penalties, all modes, public score: the optimum is attained by a valid alignment. -/
+theorem C08_attained_pub_lin (mode : Mode) (M : Mat) (g : Int) (a b : Seq) :
+    ∃ aln, Valid mode a b aln ∧ score mode (.lin g) M a b aln = opt mode M g a b := by
+  cases mode with
+  | global =>
+    obtain ⟨aln, hv, hs⟩ := C08_attained_lin M g a b
+    exact ⟨aln, hv, by rw [C08_checker_score_lin _ _ _ _ _ (by decide)]; exact hs⟩
+  | semi =>
+    obtain ⟨aln, hv, hs⟩ := C08_attained_semi M g a b
+    exact ⟨aln, hv, by rw [C08_scorePub_semi M g a b aln hv]; exact hs⟩
+  | «local» =>
+    obtain ⟨aln, hv, hs⟩ := C08_attained_local M g a b
+    exact ⟨aln, hv, by rw [C08_checker_score_lin _ _ _ _ _ (by decide)]; exact hs⟩
+
+/-- Affine penalties, all modes, public score: no valid non-abutting alignment scores above `optAff`. -/
+theorem C08_upper_pub_aff (mode : Mode) (M : Mat) (go ge : Int) (hgo : go ≤ 0) (hge : ge ≤ 0) (a b : Seq)
+    (aln : Aln) (h : Valid mode a b aln) (hn : NoAbut aln) :
+    score mode (.aff go ge) M a b aln ≤ optAff mode M go ge a b := by
+  cases mode with
+  | global => exact C08_upper_aff M go ge a b aln h hn
+  | semi => rw [C08_scorePub_semi_aff M go ge a b aln h]; exact C08_upper_aff_semi M go ge a b aln h hn
+  | «local» => exact C08_upper_aff_local M go ge hgo hge a b aln h hn
+
+/-- Affine penalties, all modes, public score: `optAff` is attained by a valid non-abutting alignment. -/
+theorem C08_attained_pub_aff (mode : Mode) (M : Mat) (go ge : Int) (a b : Seq) :
+    ∃ aln, Valid mode a b aln ∧ NoAbut aln ∧ score mode (.aff go ge) M a b aln = optAff mode M go ge a b := by
+  cases mode with
+  | global => exact C08_attained_aff M go ge a b
+  | semi =>
+    obtain ⟨aln, hv, hn, hs⟩ := C08_attained_aff_semi M go ge a b
+    exact ⟨aln, hv, hn, by rw [C08_scorePub_semi_aff M go ge a b aln hv]; exact hs⟩
+  | «local» => exact C08_attained_aff_local M go ge a b
 
 /-- everything `checkAll` accepts: each trace as above, non-empty traces pairwise distinct, at most `max_number`. -/
 theorem C08_checkAll_sound (a b : Seq) (M : Mat) (gap : Gap) (mode : Mode) (mx : Nat)
@@ -278,5 +454,20 @@ example : checkAlignment [0, 1] [1] (Mat.ofRows [[1, -1], [-1, 1]]) (.lin (-2)) 
   decide
 example : checkAlignment [0, 1] [1] (Mat.ofRows [[1, -1], [-1, 1]]) (.aff (-3) (-1)) .semi [(0, -1), (1, 0)] 1 = true := by
   decide
+example : optAff .global (Mat.ofRows [[1, -1], [-1, 1]]) (-3) (-1) [0, 1] [1] = -2 := by decide
+example : optAff .semi (Mat.ofRows [[1, -1], [-1, 1]]) (-3) (-1) [0, 1] [1] = 1 := by decide
+example : optAff .local (Mat.ofRows [[1, -1], [-1, 1]]) (-3) (-1) [0, 1] [1] = 1 := by decide
+/-- hypotheses of `C08_upper_aff` are satisfiable, and the bound is tight here -/
+example : ValidGlobal [0, 1] [1] [.gapB 0, .both 1 0] ∧ NoAbut [.gapB 0, .both 1 0] ∧
+    score .global (.aff (-3) (-1)) (Mat.ofRows [[1, -1], [-1, 1]]) [0, 1] [1] [.gapB 0, .both 1 0] = -2 := by
+  refine ⟨by unfold ValidGlobal; decide, by unfold NoAbut; decide, by decide⟩
+/-- abutting gaps are outside the affine domain -/
+example : ¬ NoAbut [.gapB 0, .gapA 0] := by unfold NoAbut; decide
+example : ((fillLin .global (Mat.ofRows [[1, -1], [-1, 1]]) (-2) [0, 1] [1, 0])[1]?.bind (·[2]?)) = some (-1) := by
+  decide
+example : optLin (Mat.ofRows [[1, -1], [-1, 1]]) (-2) ([0, 1].take 1) ([1, 0].take 2) = -1 := by decide
+/-- the public semi-global score of a concrete alignment: terminal gap free, inner columns scored -/
+example : score .semi (.lin (-2)) (Mat.ofRows [[1, -1], [-1, 1]]) [0, 1] [1] [.gapB 0, .both 1 0] = 1 := by decide
+example : scoreSemiPos (Mat.ofRows [[1, -1], [-1, 1]]) (-2) [0, 1] [1] (0, 0) [.gapB 0, .both 1 0] = 1 := by decide
 
 end BiotiteModel.C08
